@@ -63,11 +63,23 @@ where
     /// Add new constraint `c` while keeping the store normalized
     pub fn push_and_normalize(&mut self, newc: Rc<dyn Constraint<U, E>>) {
         if let Some(tree_newc) = newc.downcast_ref::<DisequalityConstraint<U, E>>() {
+            // If a stored constraint subsumes the new one, the new one is redundant and
+            // the store is left as it is.
+            let redundant = self.0.iter().any(|storec| {
+                match storec.downcast_ref::<DisequalityConstraint<U, E>>() {
+                    Some(tree_storec) => tree_storec.subsumes(tree_newc),
+                    None => false,
+                }
+            });
+            if redundant {
+                return;
+            }
+
             let mut normalized = HashSet::new();
             for storec in self.0.drain() {
                 // All non-subsumable constraints are always carried along
                 if let Some(tree_storec) = storec.downcast_ref::<DisequalityConstraint<U, E>>() {
-                    if !tree_storec.subsumes(tree_newc) && !tree_newc.subsumes(tree_storec) {
+                    if !tree_newc.subsumes(tree_storec) {
                         normalized.insert(storec);
                     }
                 } else {
